@@ -11,12 +11,22 @@ type FamilyNode struct {
 	cachedHusband, cachedWife bool
 	husband                   *HusbandNode
 	wife                      *WifeNode
+	cacheGeneration           uint64
 }
 
 func newFamilyNode(document *Document, pointer string, children ...Node) *FamilyNode {
 	return &FamilyNode{
 		newSimpleDocumentNode(document, TagFamily, "", pointer, children...),
-		false, false, nil, nil,
+		false, false, nil, nil, 0,
+	}
+}
+
+// validateCache discards the cached husband and wife if any node has changed
+// since they were found.
+func (node *FamilyNode) validateCache() {
+	if generation := currentEditGeneration(); node.cacheGeneration != generation {
+		node.resetCache()
+		node.cacheGeneration = generation
 	}
 }
 
@@ -25,6 +35,8 @@ func (node *FamilyNode) Husband() (husband *HusbandNode) {
 	if node == nil {
 		return nil
 	}
+
+	node.validateCache()
 
 	if node.cachedHusband {
 		return node.husband
@@ -49,6 +61,8 @@ func (node *FamilyNode) Wife() (wife *WifeNode) {
 	if node == nil {
 		return nil
 	}
+
+	node.validateCache()
 
 	if node.cachedWife {
 		return node.wife
